@@ -19,6 +19,7 @@ P. whole invocations (work package H): random invocations with decoration option
 import json, os, shutil
 import vlib
 import merge_util as mu
+import print_util as pu
 
 PROP = "C01"
 OPTS = [["-n"], ["-n"], ["-n", "-u", "-d", "%s%.9f"], ["-p", "-u", "-d", "%s%.9f"], ["-n", "-w"], ["-p"]]
@@ -77,7 +78,11 @@ def whole_invocation_stage(ctx, scratch, quick):
        the python rendering `mu.prog_expected` is a second, independent oracle and gives the
        expected output of a failure;
     B  for a sample, real binary vs the composed code-level MODEL `program_m` at the run's block
-       size under the schedule recorded by hook H1 (Corr/C01p.model_bad)."""
+       size under the schedule recorded by hook H1 (Corr/C01p.model_bad); third stage: the text
+       workers of `program_m` run the CACHED reader machine of Model/Caches.v (block-zero analysis
+       pattern, stage driver with a drop plan: Corr/C01p.rps_run) for files without a window and for
+       streamed files, journal entries are rendered by Model/JournalRender.v for the drawn
+       --journal-output value, the year walk of a year-less file stops early at -a."""
     import time
     t_stage = time.time()
     rng = ctx.rng
@@ -86,6 +91,14 @@ def whole_invocation_stage(ctx, scratch, quick):
     # 55% text-only invocations (python rendering as second oracle), 45% with sources of other kinds
     # (accounting records, year-less text, journal and event-log fixtures) next to / instead of them
     inps = [mu.prog_input_mixed(rng, k, scratch) if rng.random() < 0.45 else mu.prog_input(rng, k, scratch) for k in range(n_inv)]
+    # two --color always invocations per run (text sources): the binary's stdout is compared after its SGR
+    # groups are abstracted to ESC + class digit (checks/print_util.abstract_sgr), the form Corr/C01p.enc gives
+    # the model's colour switches
+    n_colour = 0
+    for inp in inps:
+        if not inp.get("mixed") and n_colour < (2 if quick else 12):
+            inp["colour"] = True
+            n_colour += 1
     plan_pool = [None, None, "seed=%d,max_us=300" % rng.randrange(1 << 30), "seed=%d,max_us=1500,poll_us=300" % rng.randrange(1 << 30),
                  "seed=%d,max_us=0,poll_us=1500" % rng.randrange(1 << 30)]
     from concurrent.futures import ThreadPoolExecutor
@@ -101,11 +114,19 @@ def whole_invocation_stage(ctx, scratch, quick):
             os.remove(tp)
         env["S4_VERIF_TRACE"] = tp
         rc, out, err = vlib.run_s4(mu.prog_argv(inp), timeout=60, env=env)
-        return dict(rc=rc, stdout=out, stderr=err, plan=plan, trace=mu.parse_trace(tp))
+        raw = out
+        if inp.get("colour"):
+            out = pu.abstract_sgr(out)
+        return dict(rc=rc, stdout=out, raw_stdout=raw, stderr=err, plan=plan, trace=mu.parse_trace(tp))
     with ThreadPoolExecutor(max_workers=8) as ex:
         results = list(ex.map(one, range(n_inv)))
     cases, fail_n, py_fail = [], 0, {}
     for k, (inp, res) in enumerate(zip(inps, results)):
+        if res["stdout"] is None:
+            fail_n += 1
+            ctx.failure(mu.prog_save_failure(PROP, ctx.seed, inp, res["plan"], fail_n), "every escape sequence on stdout is a termcolor set_color group",
+                        "an escape sequence of another shape: %r" % res["raw_stdout"][:200])
+            res["stdout"] = b""
         exp, nums, order = mu.prog_expected(inp)
         got = mu.prog_summary_nums(res["stderr"]) if (inp["summary"] and res["rc"] == 0) else []
         res["nums"], res["exp"], res["exp_nums"], res["order"] = got, exp, nums, order
@@ -123,6 +144,9 @@ def whole_invocation_stage(ctx, scratch, quick):
     for k in out_of_domain:
         si = bad[k] - 9000000
         kind = inps[k]["sources"][si].get("kind", "text") if si < len(inps[k]["sources"]) else "?"
+        if kind == "yearless" and inps[k]["lo"] is not None:
+            continue                      # the walk stopped early at -a leaves the messages above the stop in the filler year: not
+                                          # chronological across a year boundary, or inside the window (finding F17): Program.src_ok excludes both
         if kind in ("text", "sorted", "yearless", "evtx"):
             # these are generated inside the domain: a defect of the generator
             ctx.obligation_broken("generator", "whole-invocation case outside Program.domain (source %d, %s)" % (si, kind), json.dumps(mu.prog_describe(inps[k])))
@@ -186,7 +210,7 @@ def whole_invocation_stage(ctx, scratch, quick):
         if code == 8 or code >= 9000000:
             continue
         k = sample[j]
-        ctx.obligation_broken("correspondence", "s4 whole invocation vs Model.Program.program_m (block-wise readers + search + coordinator under the recorded schedule + printer + summary)",
+        ctx.obligation_broken("correspondence", "s4 whole invocation vs Model.Program.program_m (cached / block-wise readers + search + coordinator under the recorded schedule + printer + summary)",
                               json.dumps(dict(case=mu.prog_describe(inps[k]), plan=results[k]["plan"], code=code,
                                               meaning="1000+k stdout differs at byte k; 2-9 summary number differs; 21 a worker model ended abnormally; 22 recorded schedule not an execution of Model/Coord; 23 schedule not final",
                                               disagreements=len(mbad))))
@@ -212,14 +236,23 @@ def whole_invocation_stage(ctx, scratch, quick):
             continue
         if len(res["order"]) >= 2 and deco:
             nontriv.add(json.dumps([mu.prog_argv(inp)[:-len(inp["sources"])], [[m["inst"] for m in s["msgs"]] for s in inp["sources"]]]))
+    jo_hist = {}
+    for inp in inps:
+        if inp.get("jout") is not None:
+            jo_hist[mu.JOURNAL_OUTPUTS[inp["jout"]]] = jo_hist.get(mu.JOURNAL_OUTPUTS[inp["jout"]], 0) + 1
     hist_bs, hist_n = {}, {}
     for inp in inps:
         hist_bs[str(inp["bs"] or 65536)] = hist_bs.get(str(inp["bs"] or 65536), 0) + 1
         hist_n[str(len(inp["sources"]))] = hist_n.get(str(len(inp["sources"])), 0) + 1
     return dict(
         whole_invocations=n_inv, whole_invocations_distinct_nontrivial=len(nontriv),
-        whole_invocation_rule="1-5 chronological text files (plain / .gz, ISO timestamps with 6-9 fractional digits and numeric offsets, tie-heavy instants shared across files, 30% multi-line messages, 45% of the files without final newline) x random options (-n/-p, -w, -u/-l(TZ)/-z, -d from 6 formats, 5 prepend separators, 7 separators with escapes) x --blocksz {64,65,100,127,128,500,4096,default} x window (-a and/or -b on an instant present, +-1 us, +-1 ms; 45% none) x --summary (70%) x 5 planned schedules; compared: stdout bytes and Printed bytes/lines/syslines/fixedstruct/evtx/journal + first/last printed second vs Program.program_spec by vm_compute (text-only invocations also vs a python rendering); sample also vs Program.program_m under the recorded recv/print trace; 45% of the invocations hold 1-3 sources of other kinds next to (25%: instead of) the text files: utmpx/lastlog files synthesised by checks/c08_util.py (records in any stored order, equal times, null and 0xFF records) and the wtmp fixture, year-less syslog files (mtime set, year boundary, plain/.gz, fallback zone of -l), the journal fixture and the evtx fixture (always windowed to <= 12 events; events / entries = what s4 prints for that file alone); non-trivial = at least 2 printed messages and a decoration option",
+        whole_invocation_rule="1-5 chronological text files (plain / .gz, ISO timestamps with 6-9 fractional digits and numeric offsets, tie-heavy instants shared across files, 30% multi-line messages, 45% of the files without final newline) x random options (-n/-p, -w, -u/-l(TZ)/-z, -d from 6 formats, 5 prepend separators, 7 separators with escapes) x --blocksz {64,65,100,127,128,500,4096,default} x window (-a and/or -b on an instant present, +-1 us, +-1 ms; 45% none) x --summary (70%) x 5 planned schedules; compared: stdout bytes and Printed bytes/lines/syslines/fixedstruct/evtx/journal + first/last printed second vs Program.program_spec by vm_compute (text-only invocations also vs a python rendering); sample also vs Program.program_m under the recorded recv/print trace; 45% of the invocations hold 1-3 sources of other kinds next to (25%: instead of) the text files: utmpx/lastlog files synthesised by checks/c08_util.py (records in any stored order, equal times, null and 0xFF records) and the wtmp fixture, year-less syslog files (mtime set, year boundary, plain/.gz, fallback zone of -l), the journal fixture (entries read with libsystemd as in checks/c09.py, rendered by Model/JournalRender.v for a drawn --journal-output among the ten values) and the evtx fixture (always windowed to <= 12 events; events = what s4 prints for that file alone); 2 (thorough: 12) text-only invocations run with --color always and are compared after the SGR groups are abstracted to ESC + class digit (checks/print_util.abstract_sgr); non-trivial = at least 2 printed messages and a decoration option",
         whole_invocation_spec_disagreements=sum(1 for c in bad.values() if c != 8 and c < 9000000), whole_invocation_python_disagreements=len(py_fail),
+        whole_invocations_colour_always=n_colour,
+        whole_invocation_journal_output_histogram=jo_hist,
+        whole_invocations_yearless_early_stop_outside_domain=sum(1 for k in out_of_domain if bad[k] - 9000000 < len(inps[k]["sources"]) and inps[k]["sources"][bad[k] - 9000000].get("kind") == "yearless" and inps[k]["lo"] is not None),
+        whole_invocation_model_text_workers_on_cached_reader=sum(1 for k in sample[:len(mcases)] for s in inps[k]["sources"] if s.get("kind", "text") in ("text", "sorted")),
+        whole_invocation_model_text_workers_binary_search_on_cached_reader=sum(1 for k in sample[:len(mcases)] for s in inps[k]["sources"] if s.get("kind", "text") in ("text", "sorted") and s["container"] != "gz" and (inps[k]["lo"] is not None or inps[k]["hi"] is not None)),
         whole_invocations_mixed_kinds=sum(1 for i in inps if i.get("mixed")), whole_invocation_source_kind_histogram=kind_hist,
         whole_invocations_outside_domain_not_compared=len(out_of_domain),
         whole_invocations_outside_domain_source_kinds=sorted(set(inps[k]["sources"][bad[k] - 9000000].get("kind", "text") for k in out_of_domain if bad[k] - 9000000 < len(inps[k]["sources"]))),
